@@ -5,8 +5,8 @@ package main
 //
 //   * pkg/build/build.go   Context.GetBuildDateEpoch: its whole statement list (declared SOURCE_DATE_EPOCH first,
 //     then the fold over the installed packages);
-//   * pkg/build/build.go   New: the one statement that folds SOURCE_DATE_EPOCH into Options.SourceDateEpoch
-//     (condition and assignments);
+//   * pkg/build/build.go   applySourceDateEpoch (called by New and NewOptions after the options): the one statement
+//     that folds SOURCE_DATE_EPOCH into Options.SourceDateEpoch (condition and assignments), and who calls it;
 //   * internal/cli/build.go buildImageComponents: every statement that mentions multiArchBDE (start value, the
 //     per-architecture update, the hand-over to GenerateIndex).
 // Generated/OciCreated.lean; Model/OciCreated.lean is the model of exactly these statements.
@@ -48,10 +48,10 @@ func genOciCreated() {
 	l.defStrList("loop_GetBuildDateEpoch", loopBody)
 	hashFn(rel, "Context.GetBuildDateEpoch")
 
-	// --- New: the statement that looks at SOURCE_DATE_EPOCH ---
+	// --- applySourceDateEpoch (shared by New and NewOptions): the statement that looks at SOURCE_DATE_EPOCH ---
 	var newCond string
 	var newAssign [][2]string
-	if fd := f.fn("New"); fd != nil && fd.Body != nil {
+	if fd := f.fn("Context.applySourceDateEpoch"); fd != nil && fd.Body != nil {
 		for _, s := range fd.Body.List {
 			is, ok := s.(*ast.IfStmt)
 			if !ok || is.Init == nil || !strings.Contains(f.src(is.Init), "SOURCE_DATE_EPOCH") {
@@ -71,8 +71,32 @@ func genOciCreated() {
 		}
 	}
 	if newCond == "" {
-		problem("glue-C12: build.go: New has no `if … os.LookupEnv(\"SOURCE_DATE_EPOCH\") …` statement")
+		problem("glue-C12: build.go: applySourceDateEpoch has no `if … os.LookupEnv(\"SOURCE_DATE_EPOCH\") …` statement")
 	}
+	// who folds the environment in, and where: the calls of applySourceDateEpoch with the statement right before
+	// (in both constructors: after the loop over the options, so that the environment overwrites the flag)
+	var appliers [][2]string
+	for _, d := range f.f.Decls {
+		fd, ok := d.(*ast.FuncDecl)
+		if !ok || fd.Body == nil {
+			continue
+		}
+		for i, s := range fd.Body.List {
+			if strings.Contains(f.src(s), "applySourceDateEpoch()") {
+				prev := ""
+				if i > 0 {
+					prev = f.src(fd.Body.List[i-1])
+					if _, ok := fd.Body.List[i-1].(*ast.RangeStmt); ok {
+						prev = prev[:strings.Index(prev, "{")+1] + " ... }"
+					}
+				}
+				appliers = append(appliers, [2]string{fd.Name.Name, prev})
+			}
+		}
+	}
+	l.defStrStrList("epochAppliers", appliers)
+	hashFn(rel, "Context.applySourceDateEpoch")
+	hashFn(rel, "NewOptions")
 	l.defStr("newEpochCond", newCond)
 	l.defStrStrList("newEpochAssigns", newAssign)
 	// every other mention of the environment variable in non-test files of pkg/build and internal/cli would be a
